@@ -1016,3 +1016,154 @@ pub mod rfc {
         (Pt::Aff(x, y), first)
     }
 }
+
+// ---------------------------------------------------------------------------------------------
+// ZCash BLS12-381 point wire format (written from src/bls12_381/README.md)
+// ---------------------------------------------------------------------------------------------
+pub mod zcash {
+    use super::*;
+
+    /// category of the first failed validation, in the stated precedence
+    #[derive(Clone, Copy, PartialEq, Eq, Debug, Hash)]
+    pub enum DecErr {
+        Form,
+        Flags,
+        Range,
+        Curve,
+        Subgroup,
+    }
+
+    pub trait WireField: RF {
+        /// number of Fq components (1 or 2)
+        const M: usize;
+        /// components in wire order (most significant first: c1 then c0 for Fq2)
+        fn from_wire(comps: &[BigUint]) -> Option<Self>;
+        fn to_wire(&self) -> Vec<BigUint>;
+        /// true if self is lexicographically larger than -self
+        fn is_larger_than_neg(&self) -> bool;
+        fn wsqrt(&self) -> Option<Self>;
+    }
+    impl WireField for Q1 {
+        const M: usize = 1;
+        fn from_wire(c: &[BigUint]) -> Option<Self> {
+            if &c[0] >= q() {
+                None
+            } else {
+                Some(Q1::new_ref(&c[0]))
+            }
+        }
+        fn to_wire(&self) -> Vec<BigUint> {
+            vec![self.int().clone()]
+        }
+        fn is_larger_than_neg(&self) -> bool {
+            self.int() > self.neg().int()
+        }
+        fn wsqrt(&self) -> Option<Self> {
+            self.sqrt()
+        }
+    }
+    impl WireField for Q2 {
+        const M: usize = 2;
+        fn from_wire(c: &[BigUint]) -> Option<Self> {
+            if &c[0] >= q() || &c[1] >= q() {
+                None
+            } else {
+                // wire order: c1 first
+                Some(q2(&c[1], &c[0]))
+            }
+        }
+        fn to_wire(&self) -> Vec<BigUint> {
+            vec![self.c(1).int().clone(), self.c(0).int().clone()]
+        }
+        fn is_larger_than_neg(&self) -> bool {
+            let n = self.neg();
+            (self.c(1).int(), self.c(0).int()) > (n.c(1).int(), n.c(0).int())
+        }
+        fn wsqrt(&self) -> Option<Self> {
+            self.sqrt()
+        }
+    }
+
+    pub fn coord_len<F: WireField>() -> usize {
+        48 * F::M
+    }
+    pub fn enc_len<F: WireField>(compressed: bool) -> usize {
+        if compressed {
+            coord_len::<F>()
+        } else {
+            2 * coord_len::<F>()
+        }
+    }
+    fn put<F: WireField>(out: &mut Vec<u8>, v: &F) {
+        for c in v.to_wire() {
+            let b = c.to_bytes_be();
+            out.extend(std::iter::repeat(0u8).take(48 - b.len()));
+            out.extend_from_slice(&b);
+        }
+    }
+    pub fn encode<F: WireField>(p: &Pt<F>, compressed: bool) -> Vec<u8> {
+        let len = enc_len::<F>(compressed);
+        let mut out = Vec::with_capacity(len);
+        match p {
+            Pt::Inf => {
+                out.resize(len, 0);
+                out[0] |= 1 << 6;
+            }
+            Pt::Aff(x, y) => {
+                put(&mut out, x);
+                if compressed {
+                    if y.is_larger_than_neg() {
+                        out[0] |= 1 << 5;
+                    }
+                } else {
+                    put(&mut out, y);
+                }
+            }
+        }
+        if compressed {
+            out[0] |= 1 << 7;
+        }
+        out
+    }
+    /// decode; `membership(p)` is consulted only when everything else passed (the caller supplies [r]P = O)
+    pub fn decode<F: WireField>(c: &Curve<F>, bytes: &[u8], compressed: bool, checked: bool, membership: &dyn Fn(&Pt<F>) -> bool) -> Result<Pt<F>, DecErr> {
+        assert_eq!(bytes.len(), enc_len::<F>(compressed));
+        let b0 = bytes[0];
+        let (fc, fi, fs) = (b0 & 0x80 != 0, b0 & 0x40 != 0, b0 & 0x20 != 0);
+        if fc != compressed {
+            return Err(DecErr::Form);
+        }
+        if fi {
+            let mut rest = bytes.to_vec();
+            rest[0] &= 0x3f;
+            if rest.iter().all(|b| *b == 0) {
+                return Ok(Pt::Inf);
+            }
+            return Err(DecErr::Flags);
+        }
+        if !compressed && fs {
+            return Err(DecErr::Flags);
+        }
+        let mut body = bytes.to_vec();
+        body[0] &= 0x1f;
+        let comps: Vec<BigUint> = body.chunks(48).map(BigUint::from_bytes_be).collect();
+        let x = F::from_wire(&comps[..F::M]).ok_or(DecErr::Range)?;
+        let p = if compressed {
+            let y = c.rhs(&x).wsqrt().ok_or(DecErr::Curve)?;
+            let y = if y.is_larger_than_neg() == fs || y.is_zero() { y } else { y.neg() };
+            Pt::Aff(x, y)
+        } else {
+            let y = F::from_wire(&comps[F::M..]).ok_or(DecErr::Range)?;
+            Pt::Aff(x, y)
+        };
+        if checked {
+            if !c.on_curve(&p) {
+                return Err(DecErr::Curve);
+            }
+            if !membership(&p) {
+                return Err(DecErr::Subgroup);
+            }
+        }
+        Ok(p)
+    }
+}
